@@ -47,7 +47,7 @@ Proof.
   induction j as [|j IH]; intros d fuel Hlen Hf; (destruct fuel as [|f]; [lia|]).
   - cbn [tile_hash_fuel]. destruct d as [|c d]; [discriminate|].
     rewrite Hlen. reflexivity.
-  - cbn [tile_hash_fuel mtree]. destruct d as [|c d]; [pose proof (pow2_nat_pos (S j)); cbn in Hlen; lia|].
+  - cbn [tile_hash_fuel mtree]. destruct d as [|c d]; [pose proof (pow2_nat_pos (S j)); cbn [length] in Hlen; lia|].
     set (dd := c :: d) in *.
     pose proof (pow2_nat_pos j) as Hp.
     assert (Hl2 : length dd = (32 * 2 ^ j + 32 * 2 ^ j)%nat) by (rewrite Hlen; cbn [Nat.pow]; lia).
@@ -94,12 +94,11 @@ Proof.
   pose proof (pow2_pos h ltac:(lia)) as Hph.
   pose proof (pow2_pos (h - j) ltac:(lia)) as Hphj.
   assert (Hsplit : 2 ^ h = 2 ^ (h - j) * 2 ^ j) by (apply pow2_split; lia).
-  rewrite !shl_mul, !shr_div in H by lia.
+  repeat first [rewrite shl_mul in H by lia | rewrite shr_div in H by lia].
   set (tn := o * 2 ^ j / 2 ^ h) in *.
   assert (Htn : tn = o / 2 ^ (h - j)).
   { unfold tn. rewrite Hsplit. apply Z.div_mul_cancel_r; lia. }
   assert (Htn0 : 0 <= tn) by (rewrite Htn; apply Z.div_pos; lia).
-  rewrite !shl_mul, !shr_div in H by lia.
   assert (Hback : tn * 2 ^ h / 2 ^ j = tn * 2 ^ (h - j)).
   { rewrite Hsplit, Z.mul_assoc. apply Z.div_mul. lia. }
   rewrite Hback in H.
@@ -107,12 +106,12 @@ Proof.
   assert (Hn' : 0 <= n' < 2 ^ (h - j)).
   { unfold n'. rewrite Htn. pose proof (Z.mod_pos_bound o (2 ^ (h - j)) ltac:(lia)).
     rewrite Z.mod_eq in H0 by lia. lia. }
-  rewrite !shl_mul in H by lia.
   injection H as <- <- <-.
   exists l, o, j, n'. cbn [tH tL tN tW]. unfold hash_size.
-  repeat split; try lia; try assumption; try reflexivity.
-  - unfold n'. rewrite Hsplit. ring.
-  - rewrite Hsplit. nia.
+  assert (G1 : tn * 2 ^ h + n' * 2 ^ j = o * 2 ^ j) by (unfold n'; rewrite Hsplit; ring).
+  assert (G2 : (n' + 1) * 2 ^ j <= 2 ^ h) by (rewrite Hsplit; nia).
+  assert (G3 : l = L * h + j) by (unfold j; lia).
+  repeat (split; [first [assumption | reflexivity | lia] |]). reflexivity.
 Qed.
 
 Lemma tile_for_index_neg h x : x < 0 -> tile_for_index h x = TPanic.
@@ -150,18 +149,17 @@ Proof.
   rewrite !orb_false_iff, !negb_false_iff in Ev. destruct Ev as [[F1 F2] F3].
   apply Z.eqb_eq in F1, F2. apply Z.ltb_ge in F3.
   pose proof (pow2_pos j ltac:(lia)) as Hpj.
+  destruct t1 as [h1 l1 n1 w1]. cbn [tH tL tN tW] in *. subst l1 n1.
   exists l, o, (Z.to_nat j), (Z.to_nat n'). rewrite !Z2Nat.id by lia.
-  repeat split; try lia.
-  - rewrite F1. lia.
-  - rewrite F2. lia.
-  - set (jn := Z.to_nat j) in *.
-    assert (Hp2 : Z.of_nat (2 ^ jn) = 2 ^ j) by (rewrite pow2_nat_Z; unfold jn; rewrite Z2Nat.id by lia; reflexivity).
-    assert (Hes : Z.to_nat (e - s) = (32 * 2 ^ jn)%nat) by (subst e s; nia).
-    assert (Hss : Z.to_nat s = (32 * 2 ^ jn * Z.to_nat n')%nat) by (subst s; nia).
-    rewrite Hes, Hss in H. fold (block d jn (Z.to_nat n')) in H.
-    rewrite tile_hash_spec in H.
-    + injection H as <-. reflexivity.
-    + unfold block. rewrite firstn_length, skipn_length. unfold len in Hlen. nia.
+  repeat (split; [first [assumption | lia] |]).
+  set (jn := Z.to_nat j) in *.
+  assert (Hp2 : Z.of_nat (2 ^ jn) = 2 ^ j) by (rewrite pow2_nat_Z; unfold jn; rewrite Z2Nat.id by lia; reflexivity).
+  assert (Hes : Z.to_nat (e - s) = (32 * 2 ^ jn)%nat) by (subst e s; nia).
+  assert (Hss : Z.to_nat s = (32 * 2 ^ jn * Z.to_nat n')%nat) by (subst s; nia).
+  rewrite Hes, Hss in H. fold (block d jn (Z.to_nat n')) in H.
+  rewrite (tile_hash_spec jn) in H.
+  - injection H as <-. reflexivity.
+  - unfold block. rewrite firstn_length, skipn_length. unfold len in Hlen. nia.
 Qed.
 
 (* ---------------------------------------------------------------- tileParent *)
